@@ -18,6 +18,11 @@ CLAIMS = {
  "C07": "Proved for every state of the table model: no open when closed / released / hand unsettled / break / blinds unset (nothing changes then); an open raises the game count by exactly one and goes to playing; the count changes nowhere else; settlement → settled; continue → standby|pausing with per-hand fields reset. Status sequence, count, reset and the closed-table guard (regenerated fact) also monitored on every run.",
  "C08": "Proved: pause iff ShouldPause (break or fewer funded players than the minimum), otherwise the gate is set up with count+1 awaiting exactly the seated-in players with chips; when the guards pass the fire reaches the seat manager and a refusal can only come from there. Progress over real time (2 s gate timer) is observed, not proved; rotation refused with two live players is known finding D16.",
  "C09": "Proved for every admissible sequence of external calls and internal ReadyGroup steps of any length (Setup only when quiescent, distinct indexes): never fires before everybody signalled unless timed out, at most once per set-up, every fire reports the current set-up's count with exactly its participants all ready, unknown signals change nothing, repeated signals change no flag. Three kernel-checked schedules show the hypotheses are necessary (D13, D18) and one shows a rebuilt all-ready gate fires again (D24). Real OpenGameManager replayed through the model after every call (quiescent regime) + stress regime for the monitors. Partial: syncsaga memory-level races not modelled.",
+ "C10": "Proved for every state, caller, action, amount and backend outcome of the hand-level model: an accepted action passed every guard (hand being played, caller in the hand, ready/pay allowed for him, otherwise his turn, pass allowed, backend accepted; under the monitored pokerface contract the kind is in his allowed list); a refusal changes nothing; an accepted action becomes the last action naming player, seat, action, round, hand and — for pass and the wager actions — exactly one action event. Real engine + real pokerface replayed through the model on every submission; ~40% of submissions are illegal probes judged by the property's own definition with byte-equal table JSON before/after.",
+ "C11": "Proved: who is asked at each request point (all for readiness / ante, exactly the positive-blind positions for blinds) and that the request group issues its group call iff somebody is asked and every asked player answered (any order, repetitions, strangers), or on timeout; kernel-checked witness for the ante-only structure (D17). Asked sets and 'no advance before all answered' are also evaluated on every request of every run. Partial: the 17 s timer and pokerface termination are not proved (monitored: every hand must settle).",
+ "C13": "Proved: a backend failure on a player action returns an error and leaves table and hand unchanged, the retry meets the same state, and any sequence of submissions ends where its accepted subsequence ends (erasure), for every ok/fail pattern. Fault-injecting backend on real hands: failures of player actions (error returned, byte-equal JSON, retry accepted) and of the engine's own steps (must appear on the error callback).",
+ "C14": "Proved as invariants over every sequence of hand-level events: counters = accepted wager actions / calls / checks, raises ≤ actions, fold flag ⇔ fold accepted, did ⇒ chance and at most one 3-bet flag (under the monitored StableEvent contract; the event symbol is a regenerated fact), cleared between hands. Statistics compared field by field with the engine after every delivered state; the same predicates are evaluated at every settlement.",
+ "C15": "Proved: deadline = delivery time + action time exactly when a betting round asks an unmoved player for a wager action; cleared at RoundClosed and between hands; unchanged otherwise; an extension adds exactly the requested seconds, any number of times. Partial: that the delivery time is the wall-clock time of the request is observed with a bracket on every such state.",
  "C12": "Proved: the published hand blinds are the BlindState at the open; UpdateBlind / settlement / continue do not touch them; break ⇒ no open, continue pauses, create-on-break starts paused; the single read in startGame is a regenerated fact. Options received by the backend are compared with the blinds at open on every hand of every run.",
  "C17": "Forwarding discipline decided over the whole regenerated manager table (every method: lookup, not-found error, same-named engine method, arguments in order, returns its result; exactly Close/Release delete, after the call); isolation / forwarding / not-found / forgotten-after-close proved for the registry model over an arbitrary engine.",
 }
